@@ -5,7 +5,7 @@ STD = [
 ]
 META = {
  "C01": dict(
-  extra_modules=["C01Cost", "TieEnv", "C05C03More"],
+  extra_modules=["C01Cost", "TieEnv", "C05C03More", "C01Time"],
   rule="valid messages of each of the 43 RDATA kinds (plain and compressed) with every truncation and +-1 on every byte, all header-peek functions on every buffer length 0..13, bounded-exhaustive pointer graphs behind a question header, counts without body, pointer chains, random and mutated messages; each input is parsed by the library under catch_unwind with heap and time metering and by the Lean model; non-trivial = longer than a header; distinct = distinct (request, implementation output)",
   assumptions=STD + ["real time and real heap are observed on the sampled inputs; the theorems bound the model (no panic outcome, termination by construction)"],
   trusted=["heap metering by a counting global allocator, time by Instant"],
